@@ -35,6 +35,17 @@ pub fn gen_scenario(r: &mut Rng, big: bool) -> Scenario {
         args.push("-d".into());
         args.push(r.range(1, 5).to_string());
     }
+    // a module with the linker's reserved gap inside it (r-x page, PROT_NONE page, rw- page of the same file):
+    // an instruction pointer near the gap makes the 256-byte window run into unreadable memory
+    if r.chance(1, 3) {
+        let path = format!("{}/gapmod.bin", crate::live::run_dir("shared"));
+        if !std::path::Path::new(&path).exists() {
+            let bytes: Vec<u8> = (0..8192u32).map(|i| (i * 7 + 3) as u8).collect();
+            std::fs::write(&path, bytes).unwrap();
+        }
+        args.push("-M".into());
+        args.push(format!("{}|-|0:1:rx,g:1,0x1000:1:rw", crate::rng::hex(path.as_bytes())));
+    }
     // a thread or two waiting with an unusual stack pointer: null (a sandbox helper: skipped by design),
     // all-ones, tiny, unmapped, the last page of the address space
     if nblock >= 2 && r.chance(1, 3) {
@@ -94,6 +105,15 @@ pub fn gen_cfg(r: &mut Rng, t: &Target) -> DumpCfg {
             if !cands.is_empty() {
                 c.gregs[libc::REG_RIP as usize] = *r.pick(&cands) as i64;
             }
+        }
+        // … or close to the reserved gap inside a module
+        let gap: Vec<(u64, u64)> = t.maps_text().lines().filter(|l| l.ends_with("gapmod.bin")).filter_map(|l| {
+            let (a, b) = l.split_whitespace().next()?.split_once('-')?;
+            Some((u64::from_str_radix(a, 16).ok()?, u64::from_str_radix(b, 16).ok()?))
+        }).collect();
+        if gap.len() == 2 && r.chance(2, 3) {
+            let (rx_end, rw_start) = (gap[0].1, gap[1].0);
+            c.gregs[libc::REG_RIP as usize] = *r.pick(&[rx_end - 1, rx_end - 64, rx_end - 127, rx_end - 128, rx_end - 129, rw_start, rw_start + 1, rw_start + 127, rw_start + 128]) as i64;
         }
     }
     // the blamed thread may be absent (a tid that is not a thread of the target)
